@@ -21,6 +21,7 @@ import (
 	"io"
 	"net"
 	"os"
+	"runtime"
 	"path/filepath"
 	"sort"
 	"strings"
@@ -452,12 +453,15 @@ type n09ReplConn struct {
 	p    *n09Proxy
 	id   int
 	full int32 // last SYNC request carried no id
+	req  atomic.Value // string: the position the last SYNC request named (hex, as sent)
 }
 
 type n09F2LParser struct {
 	rc   *n09ReplConn
 	hdr  []byte
 	skip int
+	body []byte // payload of the SYNC request being skipped (protobuf: 0x0a, length, 32 hex digits)
+	want bool
 }
 
 func (f *n09F2LParser) feed(b []byte) {
@@ -467,8 +471,17 @@ func (f *n09F2LParser) feed(b []byte) {
 			if n > len(b) {
 				n = len(b)
 			}
+			if f.want {
+				f.body = append(f.body, b[:n]...)
+			}
 			f.skip -= n
 			b = b[n:]
+			if f.skip == 0 && f.want {
+				f.want = false
+				if len(f.body) > 2 && f.body[0] == 0x0a && int(f.body[1]) <= len(f.body)-2 {
+					f.rc.req.Store(string(f.body[2 : 2+int(f.body[1])]))
+				}
+			}
 			continue
 		}
 		need := 64 - len(f.hdr)
@@ -487,6 +500,7 @@ func (f *n09F2LParser) feed(b []byte) {
 					atomic.StoreInt32(&f.rc.full, 0)
 				}
 				f.skip = cl
+				f.want, f.body = cl > 0 && cl <= 80, f.body[:0]
 			}
 			f.hdr = f.hdr[:0]
 		}
@@ -588,7 +602,8 @@ func (l *n09L2FParser) feed(b []byte) {
 				} else {
 					l.phase = n09PhaseLive
 					p.resumes++
-					p.event(l.rc.id, l.phase, "SYNC accepted: resume from the follower's id")
+					req, _ := l.rc.req.Load().(string)
+					p.event(l.rc.id, l.phase, "SYNC accepted: resume from the follower's id %s", req)
 					if p.pendingSkip {
 						p.pendingSkip = false
 						p.skipAhead++
@@ -733,6 +748,7 @@ type n09Op struct {
 	Cnt  int     `json:"cnt,omitempty"`
 	Rc   int     `json:"rc,omitempty"`
 	V    *n09Val `json:"v,omitempty"`
+	Cut  bool    `json:"cut,omitempty"` // fburst: the follower's connection is cut right behind the burst, before its log append goes on
 }
 
 func (o n09Op) String() string {
@@ -752,6 +768,9 @@ func (o n09Op) String() string {
 	case "stop", "stall", "unstall", "drop":
 		return fmt.Sprintf("%s f%d", o.K, o.F)
 	case "fburst":
+		if o.Cut {
+			return fmt.Sprintf("fburst f%d: %d records (lock/unlock of db0 k7 id5) while the follower's log mutex is held, connection cut right behind them", o.F, o.N)
+		}
 		return fmt.Sprintf("fburst f%d: %d records (lock/unlock of db0 k7 id5) while the follower's log mutex is held", o.F, o.N)
 	case "shortlived":
 		return fmt.Sprintf("shortlived: %d holds with 1 s expiry and a value (db0 k20.. id6)", o.N)
@@ -768,6 +787,7 @@ type n09Case struct {
 	Followers int       `json:"followers"`
 	Tries     int       `json:"tries,omitempty"`  // replay only: executions to try (races with a narrow window)
 	NoLoop    bool      `json:"noloop,omitempty"` // hook H1: no wall-clock sweep goroutines, the harness owns the DB clocks
+	FileBuf   int       `json:"filebuf,omitempty"` // aof_file_buffer_size of every node of the case (0: the default, 4096 = 64 records)
 	Ops       []n09Op   `json:"ops"`
 	Cuts      [][]int64 `json:"cuts"` // per follower: cumulative leader->follower byte offsets of replication traffic
 }
@@ -778,7 +798,7 @@ func (c *n09Case) fingerprint() uint64 {
 		sb.WriteString(o.String())
 		sb.WriteByte(';')
 	}
-	return vHash(c.Ring, c.RingMax, c.Followers, sb.String(), fmt.Sprint(c.Cuts))
+	return vHash(c.Ring, c.RingMax, c.Followers, c.FileBuf, sb.String(), fmt.Sprint(c.Cuts))
 }
 
 func n09Key(i int) (k [16]byte) {
@@ -813,6 +833,8 @@ type n09Info struct {
 	leaderRestarts                     int
 	holds, bigValues                   int
 	followerBursts, shortLived, pauses int
+	smallFileBuf                       bool
+	burstCuts, burstCutsExact          int // fburst with a cut behind it; of those: burst = a whole number of file buffers
 	excludedEmptyRotation              int
 	excludedEmptyRingJoin              int
 	excludedRotationOverlap            int
@@ -868,7 +890,7 @@ func (e *n09Env) logf(format string, a ...interface{}) {
 
 func (e *n09Env) report() string {
 	var sb strings.Builder
-	fmt.Fprintf(&sb, "cluster: ring=%d ringmax=%d followers=%d cuts=%v\n", e.c.Ring, e.c.RingMax, e.c.Followers, e.c.Cuts)
+	fmt.Fprintf(&sb, "cluster: ring=%d ringmax=%d followers=%d filebuf=%d cuts=%v\n", e.c.Ring, e.c.RingMax, e.c.Followers, e.c.FileBuf, e.c.Cuts)
 	sb.WriteString("  workload as executed:\n")
 	for _, l := range e.log {
 		sb.WriteString("    " + l + "\n")
@@ -880,7 +902,8 @@ func (e *n09Env) report() string {
 }
 
 func n09InstOpts(c *n09Case) vInstOpts {
-	return vInstOpts{DBConcurrent: 2, DBFastKeyCount: 64, AofRingBufferSize: uint(c.Ring), AofRingBufferMaxSize: uint(c.RingMax), NoCheckLoop: c.NoLoop}
+	return vInstOpts{DBConcurrent: 2, DBFastKeyCount: 64, AofRingBufferSize: uint(c.Ring), AofRingBufferMaxSize: uint(c.RingMax), NoCheckLoop: c.NoLoop,
+		AofFileBufferSize: uint(c.FileBuf)}
 }
 
 func n09NewEnv(c *n09Case) (*n09Env, error) {
@@ -1122,6 +1145,49 @@ func (e *n09Env) restartLeader() string {
 // holdSenders takes the write mutex of every replication channel of the leader - what a socket write that blocks for a
 // moment does: SendProcess stops in front of its next write while the ring keeps filling, and on unholdSenders it pops
 // the whole burst in one go (one batch). Held only across a few lock/unlock operations.
+// n09KeyStateSwitchDeadlock: SLock.updateState takes every manager mutex of a LockDB in index order with
+// LowPriorityLock and keeps those it has; LowPriorityLock waits while the mutex carries the low-priority mark. The
+// mark is set by an AofChannel whose queue is longer than 2*aof_queue_size/64 records (back-pressure) and taken
+// off again when the queue has drained - but draining means LockDB.Lock, which needs the manager mutex of the KEY's
+// lock manager (handed out round-robin), not the channel's (chosen by key hash). updateState holding mutex 0 and
+// waiting for the mark on mutex 1, the channel of mutex 1 needing mutex 0: nobody moves. Reached when a follower has
+// loaded / been sent more than that many records for one channel right before clientSycnInited.
+const n09KeyStateSwitchDeadlock = "C09:follower-state-switch-deadlocks-against-load-channel-backpressure"
+
+func n09StateSwitchHangs(sl *SLock) bool {
+	for i := 0; i < 15; i++ {
+		if sl.glock.TryLock() {
+			sl.glock.Unlock()
+			return false
+		}
+		time.Sleep(100 * time.Millisecond)
+	}
+	return true
+}
+
+// n09Stacks: the goroutines whose stack mentions one of the given function names (diagnosis only).
+func n09Stacks(names ...string) string {
+	buf := make([]byte, 1<<20)
+	buf = buf[:runtime.Stack(buf, true)]
+	out := ""
+	for _, g := range strings.Split(string(buf), "\n\n") {
+		for _, n := range names {
+			if strings.Contains(g, n) {
+				lines := strings.Split(g, "\n")
+				short := []string{}
+				for _, l := range lines {
+					if !strings.HasPrefix(l, "\t") && len(short) < 7 {
+						short = append(short, l)
+					}
+				}
+				out += "\n      " + strings.Join(short, " < ")
+				break
+			}
+		}
+	}
+	return out
+}
+
 func (e *n09Env) holdSenders() {
 	if e.held != nil {
 		return
@@ -1156,6 +1222,11 @@ func (e *n09Env) followerBurst(op n09Op) {
 	if op.F < len(e.slots) && e.slots[op.F].node != nil {
 		aof = e.slots[op.F].node.inst.slock.aof
 		cc = e.slots[op.F].node.inst.slock.replicationManager.clientChannel
+		if op.Cut {
+			// the follower's append goroutine flushes its file buffer 200 ms after its last record: the burst starts
+			// on an empty buffer
+			time.Sleep(260 * time.Millisecond)
+		}
 		aof.aofGlock.Lock()
 	}
 	for i := 0; i < op.N; i++ {
@@ -1177,7 +1248,25 @@ func (e *n09Env) followerBurst(op n09Op) {
 				last, same = r, 0
 			}
 		}
+		if op.Cut {
+			// the connection dies right behind the burst: the follower's receiver ends the connection while every
+			// record of the burst is still queued for the log append - no idle moment in between
+			e.slots[op.F].proxy.dropConns()
+			e.log = append(e.log, fmt.Sprintf("  (connection of follower %d cut behind the burst)", op.F))
+			e.info.burstCuts++
+			per := 64
+			if e.c.FileBuf >= 64 {
+				per = e.c.FileBuf / 64
+			}
+			if op.N%per == 0 {
+				e.info.burstCutsExact++
+			}
+			time.Sleep(5 * time.Millisecond)
+		}
 		aof.aofGlock.Unlock()
+	}
+	if op.Cut {
+		return
 	}
 	e.info.followerBursts++
 }
@@ -1472,7 +1561,31 @@ func (e *n09Env) waitCaughtUp(f int, target [16]byte) string {
 				if atEnd {
 					stuck++
 					if stuck >= 3 {
-						return "GAP: " + last + "; every replication cursor of the leader stands at the end of its ring and has nothing left to send" + "\n" + e.dumpFiles(f)
+						// is the follower's state switch (ReplicationManager.clientSycnInited -> SLock.updateState, which
+						// holds SLock.glock for its whole duration) hanging? Then this is no gap in the stream: the
+						// follower's replication client never got as far as reading it
+						if n09StateSwitchHangs(sl) {
+							return "DEADLOCK: " + last + "; the follower's replication client has completed the handshake but SLock.updateState (entered from clientSycnInited) has not returned for > 1.5 s: it holds SLock.glock and waits for a LockDB manager mutex" + n09Stacks("updateState", "HandleLoad", "HandleReplay") + "\n" + e.dumpFiles(f)
+						}
+						detail := ""
+						for _, ch := range chans {
+							detail += fmt.Sprintf(" [leader cursor: last sent %s seq %d item=%v]", FormatAofId(ch.bufferCursor.currentAofId), ch.bufferCursor.seq, ch.bufferCursor.currentItem != nil)
+						}
+						s.proxy.mu.Lock()
+						if s.proxy.startId != nil {
+							detail += fmt.Sprintf(" [last transfer/resume position seen by the proxy: %v]", *s.proxy.startId)
+						}
+						s.proxy.mu.Unlock()
+						if os.Getenv("VERIF_N09_DEBUG") != "" {
+							buf := make([]byte, 1<<20)
+							buf = buf[:runtime.Stack(buf, true)]
+							for _, g := range strings.Split(string(buf), "\n\n") {
+								if strings.Contains(g, "Replication") || strings.Contains(g, "replication.go") || strings.Contains(g, "/server/aof.go") || strings.Contains(g, "/server/db.go") {
+									detail += "\n" + g
+								}
+							}
+						}
+						return "GAP: " + last + "; every replication cursor of the leader stands at the end of its ring and has nothing left to send" + detail + "\n" + e.dumpFiles(f)
 					}
 				} else {
 					stuck = 0
@@ -1984,6 +2097,9 @@ func (e *n09Env) syncAndCheck(final bool) (key, violation, inconclusive string) 
 			if strings.HasPrefix(why, "GAP: ") {
 				return "C09:live-stream-gap", fmt.Sprintf("follower %d will never converge: %s", i, why[5:]), ""
 			}
+			if strings.HasPrefix(why, "DEADLOCK: ") {
+				return n09KeyStateSwitchDeadlock, fmt.Sprintf("follower %d will never converge: %s", i, why[10:]), ""
+			}
 			if strings.HasPrefix(why, "SKIPPED: ") {
 				return n09KeySkipAhead, fmt.Sprintf("follower %d resumed at the bound of a full transfer that had delivered nothing and does not reach the leader's position: %s", i, why[9:]), ""
 			}
@@ -2132,6 +2248,7 @@ func n09RunCluster(c *n09Case) (out n09Out) {
 		out.info = e.info
 		out.info.abandoned = e.info.abandoned
 	}()
+	e.info.smallFileBuf = c.FileBuf > 0 && c.FileBuf < 4096
 	fail := func(key, msg string) {
 		if e.harnessTainted != "" {
 			// not a verdict: the harness itself lost control of an instance
